@@ -198,7 +198,7 @@ Lemma loop_parses {A} (step : P A) (bss : list (list N)) (xs : list A) :
   parses (loop (N.of_nat (length xs)) step) (concat bss) xs.
 Proof.
   intros HF Hne r a. unfold loop, pbind, remaining. cbn [fst].
-  apply (loopN_parses step bss xs HF (length (concat bss ++ r)) []).
+  apply (loopN_parses step bss xs HF (S (length (concat bss ++ r))) []).
   rewrite app_length. pose proof (concat_length_ge bss Hne).
   rewrite <- (Forall2_len _ _ _ HF). lia.
 Qed.
